@@ -198,12 +198,26 @@ pub fn c01_scn(name: &str, full: bool) -> ChatScn {
     s.focus = Focus::state_only(&[Cat::Membership, Cat::Ranks, Cat::UserExistence, Cat::ChanExistence, Cat::UserIdentity]);
     s.invariants = vec!["rank-set", "membership-symmetry", "dangling-member"];
     let mut probes: Vec<&'static str> = vec![];
-    for t in ["PRIVMSG #x :hi", "PRIVMSG #x :a b :c d", "PRIVMSG #x ::lead", "PRIVMSG #x :", "NOTICE #x :hi", "PRIVMSG {peer} :hi", "PRIVMSG {peer} :a b :c d", "NOTICE {peer} :", "PRIVMSG {me} :hi", "PRIVMSG #x,{peer} :hi", "NOTICE #x,{peer} :hi", "PRIVMSG #x,#x :hi", "PRIVMSG {peer},{peer} :hi", "PRIVMSG #x,nosuch,#nochan :hi", "NOTICE #x,nosuch,#nochan :hi", "PRIVMSG @#x :hi", "PRIVMSG +#x :hi", "NOTICE +#x :hi", "PRIVMSG %#x :hi", "PRIVMSG ~#x :hi", "PRIVMSG @+#x :hi", "NOTICE @+#x :hi", "PRIVMSG #y :hi", "PRIVMSG #y,#x :a b"] {
+    for t in ["PRIVMSG #x :hi", "PRIVMSG #x :a b :c d", "PRIVMSG #x ::lead", "PRIVMSG #x :", "PRIVMSG #x :trail  ", "NOTICE {peer} : ", "NOTICE #x :hi", "PRIVMSG {peer} :hi", "PRIVMSG {peer} :a b :c d", "NOTICE {peer} :", "PRIVMSG {me} :hi", "PRIVMSG #x,{peer} :hi", "NOTICE #x,{peer} :hi", "PRIVMSG #x,#x :hi", "PRIVMSG {peer},{peer} :hi", "PRIVMSG #x,nosuch,#nochan :hi", "NOTICE #x,nosuch,#nochan :hi", "PRIVMSG @#x :hi", "PRIVMSG +#x :hi", "NOTICE +#x :hi", "PRIVMSG %#x :hi", "PRIVMSG ~#x :hi", "PRIVMSG @+#x :hi", "NOTICE @+#x :hi", "PRIVMSG #y :hi", "PRIVMSG #y,#x :a b"] {
         probes.push(t);
     }
     s.probes = probes;
     s.probe_focus = Some(c01_focus());
     s.goals = vec![];
+    s
+}
+
+/// C01 after a contended registration: the audience of a message must not
+/// depend on connections that never registered (or were refused) having
+/// claimed, and then dropped, a receiver's nickname.
+pub fn c01_ghost(full: bool) -> ChatScn {
+    let mut s = super::ghost::ghost_scn("c01-ghost", &[Cat::Membership, Cat::Ranks, Cat::UserExistence, Cat::ChanExistence, Cat::UserIdentity], full);
+    s.probes_for = vec![(0, "PRIVMSG #x :hi"), (0, "PRIVMSG bob :a b :c"), (0, "NOTICE bob,#x :n"), (0, "PRIVMSG bobby :hi")];
+    for slot in [1usize, 2] {
+        s.probes_for.push((slot, "PRIVMSG #x :hi"));
+        s.probes_for.push((slot, "PRIVMSG alice,{me} :hi"));
+    }
+    s.probe_focus = Some(c01_focus());
     s
 }
 
@@ -224,7 +238,7 @@ pub fn c10_scn(name: &str, full: bool) -> ChatScn {
     for t in ["JOIN #c", "PART #c", "NICK {alt}", "MODE #c -b bob!*@*", "MODE #c +b nobody", "MODE #c -m", "MODE #c +v bob"] {
         s.alphabet_for.push((1, t));
     }
-    for t in ["AWAY :gone fishing", "AWAY"] {
+    for t in ["AWAY :gone fishing", "AWAY :back at five", "AWAY"] {
         s.alphabet_for.push((2, t));
     }
     // mode/membership/nick/away steps are judged only on the state that determines who may speak
@@ -248,7 +262,9 @@ pub fn c10_scn(name: &str, full: bool) -> ChatScn {
 
 pub fn c07_focus() -> Focus {
     Focus {
-        cats: vec![Cat::Membership, Cat::Invites, Cat::ChanExistence, Cat::Ranks],
+        // the state that decides admission is judged on every step (a MODE or INVITE that
+        // is announced but not applied as announced changes who is admitted later)
+        cats: vec![Cat::Membership, Cat::Invites, Cat::ChanExistence, Cat::Ranks, Cat::ChanLists, Cat::ChanFlags, Cat::KeyLimit],
         relays: true,
         relay_verbs: Some(vec!["JOIN"]),
         actor: true,
@@ -262,18 +278,18 @@ pub fn c07_scn(name: &str, full: bool) -> ChatScn {
     cfg.max_joins = Some(2);
     let mut s = ChatScn::new(name, cfg, vec![part(0, "alice", "alicia", "au"), part(1, "bob", "bobby", "bu")], 0);
     s.prelude = vec![(0, "JOIN #c".into())];
-    let mut a: Vec<&'static str> = vec!["MODE #c +i", "MODE #c -i", "MODE #c +k k", "MODE #c -k", "MODE #c +b bob!*@*", "MODE #c -b bob!*@*", "MODE #c +e bob!*@*", "MODE #c -e bob!*@*", "MODE #c +e zed!*@*", "MODE #c +I bob!*@*", "MODE #c +l 1", "MODE #c +l 2", "MODE #c -l", "INVITE {peer} #c"];
+    let mut a: Vec<&'static str> = vec!["MODE #c +i", "MODE #c -i", "MODE #c +k k", "MODE #c +k j", "MODE #c -k", "MODE #c +b bob!*@*", "MODE #c -b bob!*@*", "MODE #c +e bob!*@*", "MODE #c -e bob!*@*", "MODE #c +e zed!*@*", "MODE #c +I bob!*@*", "MODE #c -I bob", "MODE #c +l 1", "MODE #c +l 2", "MODE #c -l", "INVITE {peer} #c"];
     if full {
         a.extend(["MODE #c +b *!*@127.0.0.1", "MODE #c -I bob!*@*", "MODE #c +I zed", "MODE #c +b bobby", "KICK #c {peer}"]);
     }
     for t in a {
         s.alphabet_for.push((0, t));
     }
-    for t in ["JOIN #c", "JOIN #c k", "JOIN #c wrong", "PART #c", "NICK {alt}", "JOIN #q1", "JOIN #q2", "PART #q1", "JOIN #q1,#c", "JOIN #c,#q2 k,x"] {
+    for t in ["JOIN #c", "JOIN #c k", "JOIN #c j", "JOIN #c wrong", "PART #c", "NICK {alt}", "JOIN #q1", "JOIN #q2", "PART #q1", "JOIN #q1,#c", "JOIN #c,#q2 k,x"] {
         s.alphabet_for.push((1, t));
     }
     s.focus = c07_focus();
-    s.spec_skip = Some(Box::new(|a| !matches!(a, Act::Send(_, l) if l.starts_with("JOIN"))));
+    s.spec_skip = Some(Box::new(|a| !matches!(a, Act::Send(_, l) if l.starts_with("JOIN") || l.starts_with("MODE") || l.starts_with("INVITE") || l.starts_with("KICK") || l.starts_with("PART"))));
     s.probes_for = vec![(0, "NAMES #c")];
     s.probe_focus = Some(Focus { cats: vec![], relays: false, relay_verbs: None, actor: true, actor_codes: Some(vec!["353", "366"]), closes: false });
     s
@@ -394,7 +410,7 @@ pub fn c08_scn(name: &str, full: bool) -> ChatScn {
         "MODE #c +k x", "MODE #c -k", "MODE #c +b dave!*@*", "MODE #c +o-v {peer} {peer}",
     ];
     if full {
-        a.extend(["MODE #c -h {peer}", "MODE #c -a {peer}", "MODE #c +q {peer}", "MODE #c -i", "MODE #c -t", "MODE #c +n", "MODE #c +s", "MODE #c +l 2", "MODE #c -l", "MODE #c -b dave!*@*", "MODE #c +e dave", "MODE #c +I dave", "MODE #c +im", "MODE #c +tn-s", "MODE #c -o+o {peer} {peer}", "MODE #c +ov {peer} {peer}", "MODE #c +b"]);
+        a.extend(["MODE #c -h {peer}", "MODE #c -a {peer}", "MODE #c +q {peer}", "MODE #c -i", "MODE #c -t", "MODE #c +n", "MODE #c +s", "MODE #c +l 2", "MODE #c -l", "MODE #c -b dave!*@*", "MODE #c +e dave", "MODE #c +I dave", "MODE #c +im", "MODE #c +tn-s", "MODE #c +m-i", "MODE #c -t+n", "MODE #c +s-k", "MODE #c -l+m", "MODE #c -o+o {peer} {peer}", "MODE #c +ov {peer} {peer}", "MODE #c +b"]);
     }
     for slot in 0..3 {
         for t in &a {
@@ -512,7 +528,7 @@ pub fn c08_matrix(full: bool) -> Vec<Script> {
         let none: Vec<&str> = vec![];
         for l in [
             "MODE #c +i", "MODE #c -i", "MODE #c +m", "MODE #c -m", "MODE #c +t", "MODE #c -t", "MODE #c +n", "MODE #c -n", "MODE #c +s", "MODE #c -s", "MODE #c +k x", "MODE #c -k", "MODE #c +l 2", "MODE #c -l", "MODE #c +b m", "MODE #c -b m",
-            "MODE #c +e m", "MODE #c -e m", "MODE #c +I m", "MODE #c -I m", "MODE #c +im", "MODE #c +tn-s", "MODE #c +b", "MODE #c +kl x 3", "MODE #c +o ghost", "MODE #c -v bob", "MODE #c -o bob", "MODE #c -q bob", "MODE #c +b m!u", "MODE #c +e n@h",
+            "MODE #c +e m", "MODE #c -e m", "MODE #c +I m", "MODE #c -I m", "MODE #c +im", "MODE #c +tn-s", "MODE #c +m-i", "MODE #c -t+n", "MODE #c +s-k", "MODE #c -l+m", "MODE #c +b", "MODE #c +kl x 3", "MODE #c +o ghost", "MODE #c -v bob", "MODE #c -o bob", "MODE #c -q bob", "MODE #c +b m!u", "MODE #c +e n@h",
         ] {
             let mut p = base(&none);
             // give the "minus" forms something to remove
@@ -542,12 +558,102 @@ pub fn c09_focus() -> Focus {
     }
 }
 
+/// Rank matrix for what the ranks govern: every actor rank (and combination)
+/// against every victim rank (and combination) for KICK, and every actor rank
+/// for TOPIC with/without +t and INVITE with/without +i, each in a fresh world.
+pub fn c09_matrix(full: bool) -> Vec<Script> {
+    let mut out = vec![];
+    let ranks: Vec<(&str, Vec<&str>)> = vec![
+        ("outsider", vec![]),
+        ("none", vec![]),
+        ("v", vec!["+v"]),
+        ("h", vec!["+h"]),
+        ("o", vec!["+o"]),
+        ("a", vec!["+a"]),
+        ("q", vec!["+q"]),
+        ("hv", vec!["+h", "+v"]),
+        ("vh", vec!["+v", "+h"]),
+        ("ov", vec!["+o", "+v"]),
+        ("oh", vec!["+o", "+h"]),
+        ("ao", vec!["+a", "+o"]),
+        ("ah", vec!["+a", "+h"]),
+    ];
+    let target_ranks: Vec<(&str, Vec<&str>)> = vec![
+        ("none", vec![]),
+        ("v", vec!["+v"]),
+        ("h", vec!["+h"]),
+        ("o", vec!["+o"]),
+        ("a", vec!["+a"]),
+        ("q", vec!["+q"]),
+        ("hv", vec!["+h", "+v"]),
+        ("ov", vec!["+o", "+v"]),
+        ("oh", vec!["+o", "+h"]),
+        ("av", vec!["+a", "+v"]),
+    ];
+    let users = || vec![(0usize, "alice".to_string(), "au".to_string()), (1, "bob".to_string(), "bu".to_string()), (2, "carol".to_string(), "cu".to_string()), (3, "dave".to_string(), "du".to_string())];
+    for (ar, aset) in &ranks {
+        let base = |tset: &Vec<&str>, flags: &str| {
+            let mut p: Vec<(usize, String)> = vec![(0, "JOIN #c".into()), (2, "JOIN #c".into())];
+            if *ar != "outsider" {
+                p.push((1, "JOIN #c".into()));
+            }
+            for m in aset {
+                p.push((0, format!("MODE #c {} bob", m)));
+            }
+            for m in tset {
+                p.push((0, format!("MODE #c {} carol", m)));
+            }
+            if !flags.is_empty() {
+                p.push((0, format!("MODE #c {}", flags)));
+            }
+            p
+        };
+        for (_tr, tset) in &target_ranks {
+            out.push(Script { cfg: Cfg::default(), users: users(), prelude: base(tset, ""), slot: 1, line: "KICK #c carol".into() });
+            if full {
+                out.push(Script { cfg: Cfg::default(), users: users(), prelude: base(tset, ""), slot: 1, line: "KICK #c carol,alice :both".into() });
+            }
+        }
+        let none: Vec<&str> = vec![];
+        for flags in ["", "+t", "+i", "+ti"] {
+            for l in ["TOPIC #c :new topic", "TOPIC #c :", "INVITE dave #c", "INVITE carol #c", "KICK #c alice"] {
+                // founder/protected without the operator flag inviting on +i: the statement's
+                // "an operator" is ambiguous there and the Spec is silent (DESIGN 4.0)
+                if l.starts_with("INVITE") && flags.contains('i') && ["a", "q", "ah"].contains(ar) {
+                    continue;
+                }
+                out.push(Script { cfg: Cfg::default(), users: users(), prelude: base(&none, flags), slot: 1, line: l.to_string() });
+            }
+        }
+    }
+    // "grants one admission": the invitation survives a JOIN refused for another reason
+    // (limit, key), is used up by the admission, and does not admit a second time
+    let base: Vec<(usize, String)> = vec![(0, "JOIN #c".into()), (1, "JOIN #c".into()), (2, "JOIN #c".into())];
+    for (setup, tail) in [
+        (vec!["MODE #c +il 3", "INVITE dave #c"], vec![]),
+        (vec!["MODE #c +ik k", "INVITE dave #c"], vec![]),
+        (vec!["MODE #c +i", "INVITE dave #c"], vec![]),
+        (vec!["MODE #c +i", "INVITE dave #c"], vec![(3usize, "JOIN #c"), (3usize, "PART #c")]),
+        (vec!["MODE #c +il 3", "INVITE dave #c"], vec![(3usize, "JOIN #c"), (0usize, "MODE #c -l")]),
+    ] {
+        let mut p = base.clone();
+        for l in setup {
+            p.push((0, l.to_string()));
+        }
+        for (sl, l) in tail {
+            p.push((sl, l.to_string()));
+        }
+        out.push(Script { cfg: Cfg::default(), users: users(), prelude: p, slot: 3, line: "JOIN #c".into() });
+    }
+    out
+}
+
 pub fn c09_scn(name: &str, full: bool) -> ChatScn {
     let mut s = ChatScn::new(name, Cfg::default(), vec![part(0, "alice", "alicia", "au"), part(1, "bob", "bobby", "bu"), part(2, "carol", "caro", "cu"), part(3, "dave", "davy", "du")], 0);
     s.prelude = vec![(0, "JOIN #c".into()), (1, "JOIN #c".into()), (2, "JOIN #c".into())];
-    let mut founder: Vec<&'static str> = vec!["MODE #c +o {peer}", "MODE #c +h {peer}", "MODE #c +t", "MODE #c +i", "MODE #c -i"];
+    let mut founder: Vec<&'static str> = vec!["MODE #c +o {peer}", "MODE #c +h {peer}", "MODE #c +t", "MODE #c +i", "MODE #c -i", "MODE #c +l 3"];
     if full {
-        founder.extend(["MODE #c +a {peer}", "MODE #c +v {peer}", "MODE #c -t", "MODE #c -o {me}", "MODE #c +h {me}"]);
+        founder.extend(["MODE #c +a {peer}", "MODE #c +v {peer}", "MODE #c -t", "MODE #c -o {me}", "MODE #c +h {me}", "MODE #c -l"]);
     }
     for t in founder {
         s.alphabet_for.push((0, t));
@@ -721,6 +827,24 @@ pub fn c16_scn(name: &str, full: bool) -> ChatScn {
     s.probe_focus = Some(Focus { cats: vec![], relays: false, relay_verbs: None, actor: true, actor_codes: Some(vec!["254", "322", "403", "331", "332", "324"]), closes: false });
     s.step_oracle = Some(Box::new(c16_fresh));
     s.goals = vec!["created", "destroyed", "recreated"];
+    s
+}
+
+/// "within the max_joins quota": with max_joins = 1 a JOIN beyond the quota creates
+/// nothing, whether the channel exists or not.
+pub fn c16_quota_scn(name: &str) -> ChatScn {
+    let mut cfg = oper_cfg();
+    cfg.max_joins = Some(1);
+    cfg.label = "oper+max_joins1".into();
+    let mut s = c16_scn(name, false);
+    s.cfg = cfg;
+    s.alphabet_for.clear();
+    for slot in 0..2 {
+        for t in ["JOIN #x", "JOIN #y", "JOIN #x,#y", "PART #x", "PART #y", "QUIT"] {
+            s.alphabet_for.push((slot, t));
+        }
+    }
+    s.goals = vec!["created", "destroyed"];
     s
 }
 
@@ -907,7 +1031,10 @@ pub fn plan(property: &str, quick: bool) -> Plan {
             property: "C01".into(),
             rule: "E-SEQ BFS: 3 users + 1 never-joining observer, channels #x/#y, churn alphabet JOIN/PART/KICK/NICK/MODE +v+h+o-o/QUIT/EOF; in every reachable state a battery of PRIVMSG/NOTICE probes (channel, nick, own nick, comma lists with duplicates and missing names, status-prefixed and multi-status targets, 4 text shapes) from every user; oracle: Spec audience - exactly one copy per accepted distinct target at each entitled receiver, exact prefix/target/text, nothing anywhere else".into(),
             assumptions: vec!["a nick target equal to the sender may yield 0 or 1 copy (statement ambiguous)".into(), "deliveries to different receivers commute; queues are drained in slot order".into()],
-            parts: vec![Part::Bfs(Box::new(c01_scn("c01-audience", !quick)), lim(if quick { 5 } else { 6 }, 2_000_000, t(40.0, 900.0)))],
+            parts: vec![
+                Part::Bfs(Box::new(c01_scn("c01-audience", !quick)), lim(if quick { 5 } else { 6 }, 2_000_000, t(40.0, 900.0))),
+                Part::Bfs(Box::new(c01_ghost(!quick)), lim(if quick { 6 } else { 8 }, 2_000_000, t(20.0, 600.0))),
+            ],
         },
         "C10" => Plan {
             property: "C10".into(),
@@ -931,13 +1058,18 @@ pub fn plan(property: &str, quick: bool) -> Plan {
             parts: vec![
                 Part::Custom("fun:c08-matrix".into(), Box::new(move || sweep("fun:c08-matrix", c08_matrix(!quick), c08_focus(), vec!["482", "442", "441", "MODE"]))),
                 Part::Bfs(Box::new(c08_scn("c08-reach", !quick)), lim(if quick { 4 } else { 4 }, 3_000_000, t(35.0, 900.0))),
+                // "enforced by ... TOPIC, KICK and INVITE from then on": the granted ranks and flags govern these commands
+                Part::Custom("fun:c08-enforce".into(), Box::new(move || sweep("fun:c08-enforce", c09_matrix(!quick), c09_focus(), vec!["KICK", "TOPIC", "341", "482"]))),
             ],
         },
         "C09" => Plan {
             property: "C09".into(),
             rule: "E-SEQ BFS: founder + 2 members + outsider on #c; founder hands out ranks and +t/+i; everybody issues KICK (single, with comment, self, absent, lists), TOPIC (set, clear, colon text), INVITE (member, absent, unknown, self); outsider JOINs by invitation; probes TOPIC/LIST in every state. Oracle: Spec rank rules; refusal => state unchanged + the right numeric; KICK announced to remaining members and victim; TOPIC announced to all and shown by TOPIC/LIST/JOIN; INVITE reaches exactly the invitee and admits once".into(),
             assumptions: vec!["INVITE on +i by founder/protected lacking the operator flag may go either way".into(), "other victims of one multi-target KICK may or may not see each other's KICK line".into()],
-            parts: vec![Part::Bfs(Box::new(c09_scn("c09-rank", !quick)), lim(if quick { 5 } else { 5 }, 3_000_000, t(40.0, 900.0)))],
+            parts: vec![
+                Part::Custom("fun:c09-matrix".into(), Box::new(move || sweep("fun:c09-matrix", c09_matrix(!quick), c09_focus(), vec!["KICK", "TOPIC", "482", "442", "341", "443"]))),
+                Part::Bfs(Box::new(c09_scn("c09-rank", !quick)), lim(if quick { 5 } else { 5 }, 3_000_000, t(40.0, 900.0))),
+            ],
         },
         "C15" => Plan {
             property: "C15".into(),
@@ -951,6 +1083,7 @@ pub fn plan(property: &str, quick: bool) -> Plan {
             assumptions: vec![],
             parts: vec![
                 Part::Bfs(Box::new(c16_scn("c16-lifecycle", !quick)), lim(if quick { 7 } else { 7 }, 3_000_000, t(30.0, 900.0))),
+                Part::Bfs(Box::new(c16_quota_scn("c16-quota")), lim(if quick { 5 } else { 7 }, 1_000_000, t(10.0, 300.0))),
                 Part::Custom("fun:c16-lattice".into(), Box::new(move || c16_lattice(quick))),
             ],
         },
@@ -962,13 +1095,19 @@ pub fn scenarios(property: &str) -> Vec<Box<dyn Scenario>> {
     let mut v: Vec<Box<dyn Scenario>> = vec![];
     for full in [false, true] {
         match property {
-            "C01" => v.push(Box::new(c01_scn("c01-audience", full))),
+            "C01" => {
+                v.push(Box::new(c01_scn("c01-audience", full)));
+                v.push(Box::new(c01_ghost(full)));
+            }
             "C10" => v.push(Box::new(c10_scn("c10-speak", full))),
             "C07" => v.push(Box::new(c07_scn("c07-evolving", full))),
             "C08" => v.push(Box::new(c08_scn("c08-reach", full))),
             "C09" => v.push(Box::new(c09_scn("c09-rank", full))),
             "C15" => v.push(Box::new(c15_scn("c15-rename", full))),
-            "C16" => v.push(Box::new(c16_scn("c16-lifecycle", full))),
+            "C16" => {
+                v.push(Box::new(c16_scn("c16-lifecycle", full)));
+                v.push(Box::new(c16_quota_scn("c16-quota")));
+            }
             _ => {}
         }
     }
@@ -979,6 +1118,7 @@ pub fn replay_fun(property: &str, scenario: &str, input: &Value) -> Vec<Finding>
     match (property, scenario) {
         ("C07", "fun:c07-product") => replay_script(input, &c07_focus()),
         ("C08", "fun:c08-matrix") => replay_script(input, &c08_focus()),
+        ("C08", "fun:c08-enforce") | ("C09", "fun:c09-matrix") => replay_script(input, &c09_focus()),
         ("C16", "fun:c16-lattice") => c16_lattice_case(input["bits"].as_u64().unwrap_or(0) as u32),
         _ => vec![],
     }
